@@ -175,7 +175,7 @@ impl Property for C06 {
     }
     fn cases(&self, tier: Tier) -> u32 {
         match tier {
-            Tier::Quick => 8_000,
+            Tier::Quick => 20_000,
             Tier::Thorough => 200_000,
         }
     }
@@ -479,7 +479,7 @@ impl Property for C10 {
     }
     fn cases(&self, tier: Tier) -> u32 {
         match tier {
-            Tier::Quick => 6_000,
+            Tier::Quick => 15_000,
             Tier::Thorough => 200_000,
         }
     }
